@@ -116,8 +116,10 @@ class Ctx:
                     b.path in as_value or len(b.blocks) > 400:
                 continue
             ret = b.j.get('ret_ty', '')
-            if ret.startswith('base::planner::Path<') and self.fn(b).loops():
-                continue                                            # path extractor (walks the links itself)
+            if ret.startswith('base::planner::Path<') and (self.fn(b).loops() or any(
+                    (t['func'].get('path') or '') in ('std::iter::successors', 'std::iter::from_fn', 'std::iter::Iterator::collect')
+                    for _bi, t in b.calls())):
+                continue                                            # path extractor (walks the links itself, as a loop or lazily)
             ptys = [b.local_ty(i) for i in range(1, b.arg_count + 1)]
             if ret == 'f64' and any(nt in t for nt in node_tys for t in ptys):
                 continue                                            # cost function
